@@ -313,6 +313,8 @@ func (c *Ctx) c04AllSets() {
 	c.freshParsedLineRule("R10")
 	r.Rule("R12", "the lock that guards a handler set is the set's own, never a copy: no function of package client receives or copies by value a struct that contains a sync.Mutex or sync.RWMutex (shared with C14.R4)")
 	c.noLockCopiesRule("R12", c.clientFuncs())
+	r.Rule("R13", "a registration registers: every path through Handle, HandleBG and HandleFunc reaches the set's add (no 'already registered' shortcut that hands back another handler's Remover - closures of one function literal are different handlers)")
+	c.registrationAddsRule("R13")
 	r.Rule("R11", "registering or removing a handler takes no lock but the handler set's own: in everything Handle, HandleBG, HandleFunc and a Remover's Remove reach by plain calls, the only lock acquired is the set's and nothing waits (no channel operation, WaitGroup.Wait, Cond.Wait or Sleep: a handler may remove itself) (the teardown holds the connection mutex while it waits for a running handler, so a registration that touched it from inside a handler would deadlock the disconnect)")
 	c.registrationLocksRule("R11")
 	cd := a.ConnDispatch
@@ -449,4 +451,48 @@ func (c *Ctx) handlerKeysRule(rule string) {
 	}
 	r.Floor(rule, "handler-set map operations", n, 4)
 	c.snapshotRule(rule, c.ComputeLocksets(funcs), c.lockFieldName(c.Client, "hSet"))
+}
+
+// registrationAddsRule: C04.R13.
+func (c *Ctx) registrationAddsRule(rule string) {
+	r := c.R
+	n := 0
+	var isAdd func(in ssa.Instruction, seen map[*ssa.Function]bool) bool
+	isAdd = func(in ssa.Instruction, seen map[*ssa.Function]bool) bool {
+		if _, isGo := in.(*ssa.Go); isGo {
+			return false
+		}
+		cc := callOf(in)
+		if cc == nil || cc.IsInvoke() {
+			return false
+		}
+		cal := cc.StaticCallee()
+		if cal == nil || !c.InModuleFn(cal) {
+			return false
+		}
+		if rn := recvNamed(cal); rn != nil && rn == c.A.HSet && cal.Name() == c.nm("add") {
+			return true
+		}
+		if seen[cal] || cal.Package() != c.Client {
+			return false
+		}
+		seen[cal] = true
+		defer delete(seen, cal)
+		ok, _ := AllPathsFromEntryPass(cal, func(x ssa.Instruction) bool { return isAdd(x, seen) })
+		return ok
+	}
+	for _, name := range []string{"(*Conn).Handle", "(*Conn).HandleBG", "(*Conn).HandleFunc"} {
+		f := c.Func(c.Client, name)
+		if f == nil {
+			continue
+		}
+		n++
+		ok, bad := AllPathsFromEntryPass(f, func(x ssa.Instruction) bool { return isAdd(x, map[*ssa.Function]bool{}) })
+		why := "every path adds the handler to its set"
+		if !ok {
+			why = "the return at " + c.InstrPos(bad) + " is reached without the handler having been added"
+		}
+		r.Add(rule, "registration-adds:"+c.FuncKey(f), c.Pos(f.Pos()), c.FuncKey(f), "a registration always adds the handler", ok, why)
+	}
+	r.Floor(rule, "registration API functions", n, 2)
 }
